@@ -41,7 +41,7 @@ func sharedSymbol(name string) bool {
 type relSpec func(name, sort, twin string) string
 
 func tokenClassRelation(name, sort, twin string) string {
-	if strings.HasPrefix(name, "E_S_Token_") {
+	if strings.HasPrefix(name, "E_Token_") {
 		return fmt.Sprintf("(forall ((qa Int) (qi Int)) (! (and (= (cls (S_Token.Type (select (select %[1]s qa) qi))) (cls (S_Token.Type (select (select %[2]s qa) qi)))) (= (S_Token.Value (select (select %[1]s qa) qi)) (S_Token.Value (select (select %[2]s qa) qi))) (= (S_Token.Line (select (select %[1]s qa) qi)) (S_Token.Line (select (select %[2]s qa) qi)))) :pattern ((select (select %[1]s qa) qi)) :pattern ((select (select %[2]s qa) qi))))", name, twin)
 	}
 	return "(= " + name + " " + twin + ")"
